@@ -180,18 +180,86 @@ static void link_holes(ClipperLib::PolyNode* node, ErrorCode& error_code) {
     holes.clear();
 }
 
+// Clipper's hole ownership cannot be trusted when pieces of the result touch one another (at a
+// vertex or along an edge): an outside piece can be reported as a hole of its neighbour, and a real
+// hole as a hole of the wrong contour.  Returns whether hole lies within contour.  A few vertices
+// of the hole are tested first; because single vertices can sit on the contour or cross it by the
+// rounding of an intersection, any doubt is settled by the share of the hole's area that lies
+// within the contour.
+static bool hole_is_inside(const ClipperLib::Path& hole, const ClipperLib::Path& contour) {
+    const uint64_t step = hole.size() > 8 ? hole.size() / 8 : 1;
+    bool any_inside = false;
+    bool any_outside = false;
+    bool any_touching = false;
+    for (uint64_t i = 0; i < hole.size(); i += step) {
+        int inside = ClipperLib::PointInPolygon(hole[i], contour);
+        if (inside > 0) {
+            any_inside = true;
+        } else if (inside == 0) {
+            any_outside = true;
+        } else {
+            any_touching = true;
+        }
+    }
+    if (any_inside && !any_outside) return true;
+    if (any_outside && !any_inside && !any_touching) return false;
+
+    ClipperLib::Clipper clpr;
+    clpr.AddPath(hole, ClipperLib::ptSubject, true);
+    clpr.AddPath(contour, ClipperLib::ptClip, true);
+    ClipperLib::Paths common;
+    clpr.Execute(ClipperLib::ctIntersection, common, ClipperLib::pftNonZero, ClipperLib::pftNonZero);
+    double area = 0;
+    for (ClipperLib::Paths::iterator path = common.begin(); path != common.end(); path++)
+        area += ClipperLib::Area(*path);
+    return 2 * fabs(area) >= fabs(ClipperLib::Area(hole));
+}
+
 static void tree_to_polygons(const ClipperLib::PolyTree& tree, double scaling,
                              Array<Polygon*>& polygon_array, ErrorCode& error_code) {
-    ClipperLib::PolyNode* node = tree.GetFirst();
-    while (node) {
-        if (!node->IsHole()) {
-            if (node->ChildCount() > 0) {
-                link_holes(node, error_code);
-            }
-            polygon_array.append(path_to_polygon(node->Contour, scaling));
-        }
-        node = node->GetNext();
+    Array<ClipperLib::PolyNode*> contours = {};
+    for (ClipperLib::PolyNode* node = tree.GetFirst(); node; node = node->GetNext()) {
+        if (!node->IsHole()) contours.append(node);
     }
+
+    // Holes that do not lie within the contour they are attached to are handed to the smallest
+    // contour that contains them or, if there is none, kept as polygons of their own.
+    for (uint64_t i = 0; i < contours.count; i++) {
+        ClipperLib::PolyNode* node = contours[i];
+        for (uint64_t j = 0; j < node->Childs.size();) {
+            ClipperLib::PolyNode* child = node->Childs[j];
+            if (child->Contour.size() < 3 || hole_is_inside(child->Contour, node->Contour)) {
+                j++;
+                continue;
+            }
+            node->Childs.erase(node->Childs.begin() + j);
+            ClipperLib::PolyNode* owner = NULL;
+            double owner_area = 0;
+            for (uint64_t k = 0; k < contours.count; k++) {
+                if (k == i || !hole_is_inside(child->Contour, contours[k]->Contour)) continue;
+                double area = fabs(ClipperLib::Area(contours[k]->Contour));
+                if (owner == NULL || area < owner_area) {
+                    owner = contours[k];
+                    owner_area = area;
+                }
+            }
+            if (owner) {
+                owner->Childs.push_back(child);
+            } else {
+                ClipperLib::ReversePath(child->Contour);
+                polygon_array.append(path_to_polygon(child->Contour, scaling));
+            }
+        }
+    }
+
+    for (uint64_t i = 0; i < contours.count; i++) {
+        ClipperLib::PolyNode* node = contours[i];
+        if (node->ChildCount() > 0) {
+            link_holes(node, error_code);
+        }
+        polygon_array.append(path_to_polygon(node->Contour, scaling));
+    }
+    contours.clear();
 }
 
 static void bounding_box(ClipperLib::Path& points, ClipperLib::cInt* bb) {
